@@ -321,6 +321,27 @@ pub fn run(ctx: &Ctx) -> PropReport {
         eval,
         true,
     ));
+    let big: Vec<StCase> = {
+        let mut v = Vec::new();
+        for (window, delay) in [(64u8, 0u8), (100, 0), (127, 0), (200, 0), (255, 0), (64, 63), (100, 30), (40, 90), (30, 100)] {
+            for cd in [0u8, 2, 9] {
+                for players in [1u8, 3] {
+                    v.push(StCase { players, window, cd, delay, sparse: false, frames: 300, seed: mix(seed, window as u64 * 131 + delay as u64), pert: None, own_snapshots: cd == 9, double_submit: false, retry_misuse: players == 3 });
+                }
+            }
+        }
+        v
+    };
+    let nb = big.len() as u64;
+    rep.part(|| run_enum(
+        ctx,
+        "large_windows",
+        "valid configurations with large prediction windows and long input delays (window 30..=255, delay 0..=100 - check distance + delay stays below the 128-slot input ring -, check distance 0/2/9, 1 and 3 players), 300 frames each - more than twice the 128-slot input ring: same oracle as 'deterministic'",
+        nb,
+        move |i| big[i as usize].clone(),
+        eval,
+        true,
+    ));
     rep.assumptions = vec!["the harness game's save/load/advance are deterministic except for the injected, index-dependent perturbation".into()];
     rep
 }
